@@ -198,6 +198,8 @@ func c0708Worker(w *W) {
 	w.CountMax("max_levels_in_generator", int64(len(fgAllLevels())))
 
 	switch w.Spec.Kind {
+	case "asyncfmt":
+		c0708AsyncFmt(w, isC08)
 	case "direct":
 		for i := 0; i < n; i++ {
 			// one generator per case so that a case can be replayed by index
@@ -395,6 +397,82 @@ func c0708Worker(w *W) {
 	}
 }
 
+// c0708AsyncFmt: formatting that happens LATER than the call. An asynchronous logger with a logger-level layout formats on its
+// worker goroutine, possibly long after the log call returned and after many other calls were made. Formatted-message entry
+// points (Infof...), structured ones, lazily generated fields and caller-built field slices are mixed; every line must still decode to what THAT call logged, in call order.
+func c0708AsyncFmt(w *W, isC08 bool) {
+	registerMonitorPlugins()
+	prop := "C07"
+	lay := "JSONLayout"
+	if isC08 {
+		prop, lay = "C08", "TextLayout"
+	}
+	tag := log.RegisterTag("vasync")
+	cfg := map[string]string{"appender.s.type": "VSlow", "appender.s.delayUs": "150", "logger.la.type": "AsyncLogger", "logger.la.tags": "vasync", "logger.la.appenderRef.ref": "s",
+		"logger.la.layout.type": lay, "logger.la.bufferFullPolicy": "Block", "logger.la.bufferSize": "1000"}
+	if err := log.Refresh(cfg); err != nil {
+		w.Violate(prop+":pipeline-refresh", "Refresh failed: "+err.Error(), cfg)
+		return
+	}
+	ctx := context.Background()
+	n := int(w.Spec.N)
+	want := make([]string, 0, n)
+	for i := 0; i < n; i++ {
+		msg := fmt.Sprintf("id-af%d-%d payload %s", w.Spec.Shard, i, strings.Repeat(string(rune('a'+i%26)), i%40))
+		want = append(want, msg)
+		switch i % 5 {
+		case 0:
+			log.Infof(ctx, tag, "%s", msg)
+		case 1:
+			log.Warnf(ctx, tag, "id-af%d-%d payload %s", w.Spec.Shard, i, strings.Repeat(string(rune('a'+i%26)), i%40))
+		case 2:
+			log.Error(ctx, tag, log.Msg(msg), log.Int("i", i))
+		case 3:
+			log.Debug(ctx, tag, func() []log.Field { return []log.Field{log.Msg(msg)} })
+		default:
+			// (a slice passed as fields... is NOT reused afterwards: whether an asynchronous logger may keep referring to the
+			// caller's slice until it formats is not stated by any property - a don't-care, see DESIGN 9.4)
+			own := []log.Field{log.Msg(msg), log.Int("i", i)}
+			log.Info(ctx, tag, own...)
+		}
+	}
+	log.Destroy()
+	items := rec.take()
+	cs := map[string]any{"scenario": "asynchronous logger with a logger-level " + lay + ", slow appender (backlog), formatted / structured / lazy entry points mixed"}
+	w.Eval(int64(n))
+	if len(items) != n {
+		w.Violate(prop+":async-format:count", fmt.Sprintf("%d calls, %d lines reached the appender", n, len(items)), cs)
+		return
+	}
+	for i, it := range items {
+		line := string(it.JSON)
+		var got string
+		if isC08 {
+			if k := strings.Index(line, "msg="); k >= 0 {
+				got = line[k+4:]
+				if j := strings.Index(got, "||"); j >= 0 {
+					got = got[:j]
+				}
+				got = strings.TrimSuffix(got, "\n")
+			}
+		} else {
+			var m map[string]any
+			if err := json.Unmarshal(it.JSON, &m); err != nil {
+				w.Violate("C07:invalid-json", fmt.Sprintf("line %d formatted on the worker goroutine is not valid JSON: %v: %s", i, err, trunc(line, 300)), cs)
+				return
+			}
+			got, _ = m["msg"].(string)
+		}
+		if got != want[i] {
+			w.Violate(prop+":async-format:msg", fmt.Sprintf("call #%d logged msg %q; the line formatted later on the worker goroutine carries %q", i, trunc(want[i], 120), trunc(got, 120)), cs)
+			return
+		}
+	}
+	w.Count("lines_formatted_after_the_call_returned", int64(n))
+	w.Distinct("async-format|" + lay)
+	w.Sample(cs)
+}
+
 func c0708Run(d *D) {
 	var specs []Spec
 	for i := 0; i < 14; i++ {
@@ -412,6 +490,9 @@ func c0708Run(d *D) {
 		s.Args["w"] = strconv.Itoa(wv)
 		specs = append(specs, s)
 	}
+	af := d.NewSpec("asyncfmt", "asyncfmt", 200, 14)
+	af.N = d.Pick(3000, 60000)
+	specs = append(specs, af)
 	d.RunWorkers(specs, 16)
 }
 
